@@ -27,6 +27,14 @@ T = {
  ("C11","b"): ("caught_after_strengthening","C11","C11:side_effect_frame_count:WriteA+WriteTimeout0","missed: no input ended in tool_failed after mutating. The input 'write with timeout_ms 0' was added (the mutation lands, the call fails, one side-effects frame is still due)"),
  ("C12","a"): ("caught_after_strengthening","C12","C12:atomicity:failed_patch_changed_files","missed: needs an op that fails half-way (target whose parent is a regular file) after another op changed a file. The path a/z (parent a is a file) was added to the path alphabet"),
  ("C12","b"): ("caught_as_built","C12","C12:exact:reference_fails_real_succeeds",""),
+ ("C13","a"): ("caught_after_strengthening","C13","C13:outside_modified:TaskCwd / C13:outside_read:output:TaskCwd","missed: a resolver that validates the raw string and joins the trimmed one needs a whitespace-padded absolute or '..' path; every such string now also appears with a leading and a trailing space"),
+ ("C13","b"): ("other_property","C14","C14:rewind:failed_rewind_changed_workspace","roll-back of a failed rewind resolved against the process cwd: what breaks first is 'a failed rewind leaves the workspace as it was' with cwd != root, which is C14's clause and C14's cwd mode (caught as built). C13's grammar has no rewind that fails half-way"),
+ ("C14","a"): ("caught_after_strengthening","C14","C14:auto_checkpoint:does_not_cover_change:apply_patch","missed: needs one apply_patch call that names the same source in two ops, the later with a move. Four multi-op patches were added (in histories of <= depth-2 ops)"),
+ ("C14","b"): ("caught_as_built","C14","C14:rewind:covered_file_wrong_bytes",""),
+ ("C15","a"): ("caught_as_built","C15","C15:chunking:replacement_char_count",""),
+ ("C15","b"): ("caught_as_built","C15","C15:seq:gap",""),
+ ("C16","a"): ("caught_after_strengthening","C16","C16:call_answered_twice:SameCallIdNonAdjacent","missed: adjacent-only de-duplication needs a call id that comes back on a later, non-adjacent item (A, B, A); 18 three-item scripts of that shape were added. (The first version of the extension judged which of the two items sharing an id survives - not defined by the property - and raised an alarm on the unchanged tree; corrected before it was registered.)"),
+ ("C16","b"): ("caught_after_strengthening","C16","C16:tool_call_bound:NoneMode / FnRead","missed: the endless-call script only ran with tool_choice auto; it now also runs with none and function(read), where every call is refused and must still count against the bound"),
 }
 def main():
     for (pid,var),(status,by,sig,note) in T.items():
